@@ -49,9 +49,16 @@ verif_replay_fail(const char *what)
 	exit(1);
 }
 
+/* set by a harness that says "this valid input must not be rejected" (defined in stubs/base.c or the unit) */
+__attribute__((weak)) int g_no_error;
+
 void
 verif_noreturn(void)
 {
+	if (g_no_error) {
+		fprintf(stderr, "replay: VIOLATED on the real code: diagnostic reached on an input the property says must be accepted\n");
+		exit(1);
+	}
 	fprintf(stderr, "replay: real code left through error()/fatal()\n");
 	exit(78);
 }
